@@ -27,6 +27,20 @@ fn run_k<const K: usize>(sc: &Value, id: usize, out: Out) {
     if sc.get("elim").and_then(|v| v.as_bool()).unwrap_or(false) {
         if guarded(|| { t.infeasible_elimination(); }).is_err() { return; }
     }
+    // "upd" scenarios: a complete traversal, then the root predicate is exchanged with update_node (threshold + 1), then the
+    // tree is observed: anything memoised by the first traversal must not leak into the second
+    if sc.get("upd").and_then(|v| v.as_bool()).unwrap_or(false) && t.tree.len() > 1 {
+        let r = guarded(|| {
+            let mut it = t.polyhedra();
+            while it.next(&t.tree).is_some() {}
+            let _ = t.polyhedra_iter().count();
+            let root = t.tree.get_root_idx();
+            let mut a = t.tree.node_value(root).unwrap().aff.clone();
+            a.bias.mapv_inplace(|b| b + 1.0);
+            t.update_node(root, a).expect("update_node");
+        });
+        if r.is_err() { return; }
+    }
     let exps = crate::afftree::apply_pscale(&mut t, sc.get("pscale").and_then(|v| v.as_str()).unwrap_or(""));
     let tj = crate::afftree::tree_json_ps(&t, q, &exps);
     // reported path polytopes are scaled back with the exponent of the decision they come from (path edge j belongs to the j-th node of the path)
